@@ -3,8 +3,8 @@ CONSTANTS
   AttrPrefixes = {"-"}
   KeyPrefixes = {"#"}
   FieldSeps = {":", "|", "::"}
-  ArraySizes = {0}
-  ActiveFns = {"SetFieldSeparator"}
+  ArraySizes = {0, 64}
+  ActiveFns = {"SetFieldSeparator", "SetArraySize"}
   ActiveOps = {"newmap"}
   MaxHist = 3
 INVARIANTS Functional OnlyRelevant Emit
